@@ -9,6 +9,9 @@ impl Clone for Out {
     #[verifier::external_body]
     fn clone(&self) -> (r: Self) ensures same_sink(*self, r) { unimplemented!() }
 }
+// writeln!(w.borrow_mut(), "error:{e}") (rewrite writeln_error): one `error:` line on that sink, or an io::Error
+#[verifier::external_body]
+pub fn error_line<E>(w: &Out, e: &E) -> std::io::Result<()> { unimplemented!() }
 // `Box<dyn Fn() -> R>` (rewrite stdin_factory): opaque; its only use is in the unverified half of go()
 #[verifier::external_body]
 #[verifier::reject_recursive_types(R)]
